@@ -9,10 +9,8 @@ package c11
 import (
 	"bufio"
 	"bytes"
-	"context"
 	"crypto"
 	"crypto/sha256"
-	"crypto/x509"
 	"encoding/binary"
 	"encoding/json"
 	"fmt"
@@ -20,7 +18,6 @@ import (
 	"os"
 	"os/exec"
 	"path/filepath"
-	"regexp"
 	"runtime"
 	"runtime/debug"
 	"sort"
@@ -30,17 +27,12 @@ import (
 	"testing"
 	"time"
 
-	"github.com/ProtonMail/go-crypto/openpgp"
 	"pgregory.net/rapid"
 
-	"github.com/sassoftware/relic/v8/cmdline/shared"
-	"github.com/sassoftware/relic/v8/config"
-	"github.com/sassoftware/relic/v8/internal/signinit"
-	"github.com/sassoftware/relic/v8/lib/certloader"
 	"github.com/sassoftware/relic/v8/lib/magic"
 	"github.com/sassoftware/relic/v8/signers"
-	"github.com/sassoftware/relic/v8/token/open"
 	"github.com/sassoftware/relic/v8/xverif/arts"
+	"github.com/sassoftware/relic/v8/xverif/c11entry"
 	"github.com/sassoftware/relic/v8/xverif/evid"
 	"github.com/sassoftware/relic/v8/xverif/known"
 	"github.com/sassoftware/relic/v8/xverif/pipe"
@@ -59,29 +51,15 @@ var (
 
 // resource bounds (see DESIGN.md, C11): generous multiples of what valid input needs
 const (
-	allocBase   = 96 << 20 // bytes a case may allocate in total regardless of size
-	allocFactor = 512      // plus this many bytes per input byte
-	cpuBaseMs   = 15000    // CPU milliseconds a case may burn regardless of size
-	cpuPerKiB   = 20       // plus this many per KiB of input
-	addrSpace   = 6 << 30  // RLIMIT_AS of the child
+	allocBase   = c11entry.AllocBase
+	allocFactor = c11entry.AllocFactor
+	cpuBaseMs   = c11entry.CPUBaseMs
+	cpuPerKiB   = c11entry.CPUPerKiB
+	addrSpace   = 6 << 30 // RLIMIT_AS of the child
 )
 
-type caseReq struct {
-	Entry   string `json:"entry"` // verify | issigned | transform | sign | magic | certs
-	SigType string `json:"sigtype"`
-	Path    string `json:"path"`
-	Name    string `json:"name"`
-}
-
-type caseRes struct {
-	Status string `json:"status"` // ok | error | panic
-	Err    string `json:"err,omitempty"`
-	Site   string `json:"site,omitempty"`
-	Stack  string `json:"stack,omitempty"`
-	Alloc  uint64 `json:"alloc"`
-	ASite  string `json:"alloc_site,omitempty"` // relic function owning the largest allocation growth
-	CPUMs  int64  `json:"cpu_ms"`
-}
+type caseReq = c11entry.Req
+type caseRes = c11entry.Res
 
 type base struct {
 	format, sigType, name string
@@ -468,12 +446,7 @@ func runCase(t *rapid.T, b *base, entry, sigType string, data []byte, ops []stri
 	t.Fatalf("%s on %s input derived from %s (%v), entry %s, module %s:\n%s", key, humanLen(len(data)), b.name, ops, entry, sigType, trunc(what, 4000))
 }
 
-func trunc(s string, n int) string {
-	if len(s) > n {
-		return s[:n] + "..."
-	}
-	return s
-}
+func trunc(s string, n int) string { return c11entry.Trunc(s, n) }
 
 func humanLen(n int) string { return strconv.Itoa(n) + "-byte" }
 
@@ -537,6 +510,9 @@ func TestC11_Regressions(t *testing.T) {
 	if dir == "" {
 		dir = filepath.Join(os.Getenv("VERIF_ROOT"), "harness/props/c11/testdata/crashers")
 	}
+	if sh := os.Getenv("VERIF_SHARD"); sh != "" && sh != "0" {
+		t.Skip("the crasher corpus is replayed by shard 0")
+	}
 	metas, _ := filepath.Glob(filepath.Join(dir, "*.json"))
 	sort.Strings(metas)
 	bad := 0
@@ -561,6 +537,7 @@ func TestC11_Regressions(t *testing.T) {
 			status = "C11:" + site
 			if knownSet.Has("C11:" + site) {
 				rec.Excluded("C11:" + site)
+				rec.KnownFinding("C11:"+site, knownSet["C11:"+site].What)
 				status += " (listed)"
 			} else {
 				bad++
@@ -595,7 +572,7 @@ type deathInfo struct{ site, what string }
 func startChild() *child {
 	c := &child{stderr: &bytes.Buffer{}, lines: make(chan string, 4)}
 	c.cmd = exec.Command(os.Args[0], "-test.run=^$")
-	c.cmd.Env = append(os.Environ(), "VERIF_C11_CHILD="+env.CfgPath, "VERIF_EVIDENCE_PART=", "GOMAXPROCS=4", "GOTRACEBACK=all")
+	c.cmd.Env = append(os.Environ(), "VERIF_C11_CHILD="+env.CfgPath, "VERIF_EVIDENCE_PART=", "GOMAXPROCS=4", "GOTRACEBACK=crash")
 	c.cmd.Stderr = c.stderr
 	c.cmd.SysProcAttr = &syscall.SysProcAttr{Pdeathsig: syscall.SIGKILL}
 	c.stdin, _ = c.cmd.StdinPipe()
@@ -641,19 +618,19 @@ func procCPU(pid int) (ms int64, state byte) {
 	return (ut + st) * 10, f[0][0]
 }
 
-var panicHead = regexp.MustCompile(`(?m)^(panic: .*|fatal error: .*|runtime: .*out of memory.*)$`)
-var frameRe = regexp.MustCompile(`(?m)^(github\.com/sassoftware/relic/v8/[^\s(]+(?:\([^)]*\))?[^\s(]*)\(`)
-
-// siteOf names the innermost relic frame of a Go traceback (function, not line).
-func siteOf(trace string) string {
-	for _, m := range frameRe.FindAllStringSubmatch(trace, -1) {
-		fn := strings.TrimPrefix(m[1], "github.com/sassoftware/relic/v8/")
-		if strings.HasPrefix(fn, "xverif/") {
+// hangSite names the relic function a spinning goroutine is in: only goroutines the dump
+// shows as running or runnable count (parked leftovers of earlier cases do not).
+func hangSite(dump string, req caseReq) string {
+	for _, blk := range strings.Split(dump, "\n\ngoroutine ") {
+		head, _, _ := strings.Cut(blk, "\n")
+		if !strings.Contains(head, "[running") && !strings.Contains(head, "[runnable") {
 			continue
 		}
-		return fn
+		if s := c11entry.SiteOf(blk); s != "unknown" {
+			return s
+		}
 	}
-	return "unknown"
+	return req.Entry + ":" + req.SigType
 }
 
 func runInChild(req caseReq, inputLen int) (*caseRes, *deathInfo) {
@@ -678,7 +655,7 @@ func runInChild(req caseReq, inputLen int) (*caseRes, *deathInfo) {
 				text := kid.stderr.String()
 				kid = nil
 				kind := "abort"
-				head := panicHead.FindString(text)
+				head := c11entry.PanicHead.FindString(text)
 				switch {
 				case strings.Contains(text, "out of memory") || strings.Contains(text, "cannot allocate"):
 					kind = "alloc-abort"
@@ -688,7 +665,7 @@ func runInChild(req caseReq, inputLen int) (*caseRes, *deathInfo) {
 					kind = "goroutine-panic"
 				}
 				// the traceback of the faulting goroutine comes first
-				return nil, &deathInfo{site: kind + ":" + siteOf(text), what: fmt.Sprintf("isolation child died (%s): %s\n%s", kind, head, trunc(text, 6000))}
+				return nil, &deathInfo{site: kind + ":" + c11entry.SiteOf(text), what: fmt.Sprintf("isolation child died (%s): %s\n%s", kind, head, trunc(text, 6000))}
 			}
 			var res caseRes
 			if err := json.Unmarshal([]byte(line), &res); err != nil {
@@ -704,15 +681,15 @@ func runInChild(req caseReq, inputLen int) (*caseRes, *deathInfo) {
 				kid.cmd.Process.Signal(syscall.SIGQUIT)
 				time.Sleep(300 * time.Millisecond)
 				kid.stop()
-				text := strings.ReplaceAll(kid.stderr.String(), "SIGQUIT", "SIGQUIT-by-harness")
+				text := strings.ReplaceAll(kid.stderr.String(), "SIGQUIT", "quit-signal-sent-by-harness")
 				kid = nil
-				return nil, &deathInfo{site: "hang-cpu:" + siteOf(text), what: fmt.Sprintf("no result after %d ms of CPU on a %d-byte input\n%s", cpu-startCPU, inputLen, trunc(text, 6000))}
+				return nil, &deathInfo{site: "hang-cpu:" + hangSite(text, req), what: fmt.Sprintf("no result after %d ms of CPU on a %d-byte input\n%s", cpu-startCPU, inputLen, trunc(text, 6000))}
 			}
 			if time.Since(lastProgress) > 60*time.Second && time.Since(start) > 90*time.Second {
 				kid.cmd.Process.Signal(syscall.SIGQUIT)
 				time.Sleep(300 * time.Millisecond)
 				kid.stop()
-				text := strings.ReplaceAll(kid.stderr.String(), "SIGQUIT", "SIGQUIT-by-harness")
+				text := strings.ReplaceAll(kid.stderr.String(), "SIGQUIT", "quit-signal-sent-by-harness")
 				kid = nil
 				return nil, &deathInfo{site: "blocked:" + req.Entry + ":" + req.SigType, what: fmt.Sprintf("child asleep without CPU progress for 60 s on a %d-byte input\n%s", inputLen, trunc(text, 6000))}
 			}
@@ -723,35 +700,19 @@ func runInChild(req caseReq, inputLen int) (*caseRes, *deathInfo) {
 // ---------- child ----------
 
 func childMain() {
-	cfg, err := config.ReadFile(os.Getenv("VERIF_C11_CHILD"))
+	cfg, err := c11entry.Setup(os.Getenv("VERIF_C11_CHILD"))
 	if err != nil {
 		fmt.Fprintln(os.Stderr, "child:", err)
 		os.Exit(3)
 	}
-	shared.CurrentConfig = cfg
 	lim := &syscall.Rlimit{Cur: addrSpace, Max: addrSpace}
 	syscall.Setrlimit(syscall.RLIMIT_AS, lim)
 	debug.SetGCPercent(100)
 	runtime.MemProfileRate = 256 << 10
-	cdir := filepath.Dir(os.Getenv("VERIF_C11_CHILD"))
-	childRoots, _ = certloader.ParseX509Certificates(mustRead(filepath.Join(cdir, "root.crt")))
-	for _, k := range pipe.SigningKeys {
-		if blob, err := os.ReadFile(filepath.Join(cdir, k+".pgp")); err == nil {
-			if el, err := openpgp.ReadArmoredKeyRing(bytes.NewReader(blob)); err == nil {
-				childPgp = append(childPgp, el...)
-			} else if el, err := openpgp.ReadKeyRing(bytes.NewReader(blob)); err == nil {
-				childPgp = append(childPgp, el...)
-			}
-		}
-	}
-	if len(childRoots) == 0 || len(childPgp) == 0 {
-		fmt.Fprintln(os.Stderr, "child: trust material missing")
-		os.Exit(3)
-	}
 	sc := bufio.NewScanner(os.Stdin)
 	sc.Buffer(make([]byte, 1<<20), 1<<20)
 	w := bufio.NewWriter(os.Stdout)
-	prof0 := snapshotProfile()
+	prof0 := c11entry.SnapshotProfile()
 	for sc.Scan() {
 		var req caseReq
 		if err := json.Unmarshal(sc.Bytes(), &req); err != nil {
@@ -761,15 +722,15 @@ func childMain() {
 		runtime.ReadMemStats(&ms0)
 		var ru0, ru1 syscall.Rusage
 		syscall.Getrusage(syscall.RUSAGE_SELF, &ru0)
-		res := runEntry(cfg, req)
+		res := c11entry.Run(cfg, req)
 		syscall.Getrusage(syscall.RUSAGE_SELF, &ru1)
 		runtime.ReadMemStats(&ms1)
 		res.Alloc = ms1.TotalAlloc - ms0.TotalAlloc
 		if res.Alloc > (32 << 20) {
-			res.ASite = allocSite(prof0)
+			res.ASite = c11entry.AllocSite(prof0)
 		}
 		if res.Alloc > (8 << 20) {
-			prof0 = snapshotProfile()
+			prof0 = c11entry.SnapshotProfile()
 		}
 		res.CPUMs = (ru1.Utime.Nano() + ru1.Stime.Nano() - ru0.Utime.Nano() - ru0.Stime.Nano()) / 1e6
 		blob, _ := json.Marshal(res)
@@ -780,208 +741,3 @@ func childMain() {
 	}
 	os.Exit(0)
 }
-
-// snapshotProfile maps allocation stacks to bytes allocated so far (allocations of
-// MemProfileRate bytes or more are always sampled).
-func snapshotProfile() map[[32]uintptr]int64 {
-	runtime.GC()
-	runtime.GC()
-	n, _ := runtime.MemProfile(nil, true)
-	recs := make([]runtime.MemProfileRecord, n+64)
-	n, ok := runtime.MemProfile(recs, true)
-	if !ok {
-		return nil
-	}
-	out := map[[32]uintptr]int64{}
-	for _, r := range recs[:n] {
-		out[r.Stack0] += r.AllocBytes
-	}
-	return out
-}
-
-// allocSite names the innermost relic function of the stack whose allocated bytes grew most.
-func allocSite(before map[[32]uintptr]int64) string {
-	after := snapshotProfile()
-	var best [32]uintptr
-	var bestGrowth int64
-	for st, b := range after {
-		if g := b - before[st]; g > bestGrowth {
-			best, bestGrowth = st, g
-		}
-	}
-	if bestGrowth == 0 {
-		return "unknown"
-	}
-	n := 0
-	for n < len(best) && best[n] != 0 {
-		n++
-	}
-	frames := runtime.CallersFrames(best[:n])
-	first := ""
-	for {
-		fr, more := frames.Next()
-		if first == "" {
-			first = fr.Function
-		}
-		if strings.HasPrefix(fr.Function, "github.com/sassoftware/relic/v8/") && !strings.Contains(fr.Function, "/xverif/") {
-			fn := strings.TrimPrefix(fr.Function, "github.com/sassoftware/relic/v8/")
-			return fn
-		}
-		if !more {
-			break
-		}
-	}
-	return "outside-relic:" + first
-}
-
-func mustRead(p string) []byte {
-	blob, err := os.ReadFile(p)
-	if err != nil {
-		panic(err)
-	}
-	return blob
-}
-
-func runEntry(cfg *config.Config, req caseReq) (res caseRes) {
-	defer func() {
-		if p := recover(); p != nil {
-			st := string(debug.Stack())
-			res = caseRes{Status: "panic", Err: fmt.Sprint(p), Site: siteOf(afterPanic(st)) + ":" + panicKind(fmt.Sprint(p)), Stack: trunc(st, 5000)}
-		}
-	}()
-	err := doEntry(cfg, req)
-	if err != nil {
-		return caseRes{Status: "error", Err: trunc(err.Error(), 300)}
-	}
-	return caseRes{Status: "ok"}
-}
-
-// afterPanic drops the frames above the panic call so the innermost faulting frame is first.
-func afterPanic(st string) string {
-	if i := strings.Index(st, "\npanic("); i >= 0 {
-		return st[i:]
-	}
-	return st
-}
-
-func panicKind(msg string) string {
-	switch {
-	case strings.Contains(msg, "index out of range"):
-		return "index"
-	case strings.Contains(msg, "slice bounds out of range"):
-		return "slice"
-	case strings.Contains(msg, "nil pointer"):
-		return "nil"
-	case strings.Contains(msg, "makeslice") || strings.Contains(msg, "len out of range"):
-		return "makeslice"
-	case strings.Contains(msg, "divide by zero"):
-		return "div0"
-	case strings.Contains(msg, "negative"):
-		return "negative"
-	}
-	return "other"
-}
-
-func doEntry(cfg *config.Config, req caseReq) error {
-	mod := signers.ByName(req.SigType)
-	switch req.Entry {
-	case "magic":
-		f, err := os.Open(req.Path)
-		if err != nil {
-			return err
-		}
-		defer f.Close()
-		ft, _ := magic.DetectCompressed(f)
-		if m := signers.ByMagic(ft); m == nil {
-			signers.ByFileName(req.Name)
-		}
-		return nil
-	case "certs":
-		blob, err := os.ReadFile(req.Path)
-		if err != nil {
-			return err
-		}
-		_, err = certloader.ParseX509Certificates(blob)
-		_, err2 := certloader.LoadTokenCertificates(nil, req.Path, "", nil)
-		_, err3 := certloader.LoadTokenCertificates(nil, "", req.Path, nil)
-		if err == nil {
-			err = err2
-		}
-		if err == nil {
-			err = err3
-		}
-		return err
-	}
-	if mod == nil {
-		return fmt.Errorf("no module %q", req.SigType)
-	}
-	switch req.Entry {
-	case "verify":
-		_, err := pipe.VerifyRaw(&pipe.VerifyReq{SigType: req.SigType, Path: req.Path, Roots: childRoots, PGP: childPgp})
-		return err
-	case "issigned":
-		f, err := os.Open(req.Path)
-		if err != nil {
-			return err
-		}
-		defer f.Close()
-		_, err = mod.IsSigned(f)
-		return err
-	case "transform":
-		f, err := os.Open(req.Path)
-		if err != nil {
-			return err
-		}
-		defer f.Close()
-		flags, _ := mod.FlagsFromQuery(nil)
-		tr, err := mod.GetTransform(f, signers.SignOpts{Path: req.Path, Hash: crypto.SHA256, Flags: flags})
-		if err != nil {
-			return err
-		}
-		r, err := tr.GetReader()
-		if err != nil {
-			return err
-		}
-		_, err = io.Copy(io.Discard, r)
-		return err
-	case "sign", "transform-sign":
-		if mod.Sign == nil {
-			return nil
-		}
-		f, err := os.Open(req.Path)
-		if err != nil {
-			return err
-		}
-		defer f.Close()
-		flags, _ := mod.FlagsFromQuery(nil)
-		var body io.Reader = f
-		if req.Entry == "transform-sign" {
-			tr, err := mod.GetTransform(f, signers.SignOpts{Path: req.Path, Hash: crypto.SHA256, Flags: flags})
-			if err != nil {
-				return err
-			}
-			if body, err = tr.GetReader(); err != nil {
-				return err
-			}
-		}
-		keyName := "rsa2048a"
-		kc, _ := cfg.GetKey(keyName)
-		tok, err := open.Token(cfg, kc.Token, nil)
-		if err != nil {
-			return err
-		}
-		defer tok.Close()
-		cert, opts, err := signinit.Init(context.Background(), mod, tok, keyName, crypto.SHA256, flags)
-		if err != nil {
-			return err
-		}
-		_, err = mod.Sign(body, cert, *opts)
-		return err
-	}
-	return fmt.Errorf("unknown entry %q", req.Entry)
-}
-
-var (
-	childRoots []*x509.Certificate
-	childPgp   openpgp.EntityList
-)
